@@ -41,6 +41,11 @@ CHECKS = {
             "is checked for |1-beta|<1e-4, reference ESS>=n_total and evidence()==reference logZ(1); then all 16 flag combinations of posterior() x 4 trimming settings x scripted offsets are executed and checked for arity, "
             "equal lengths, normalised/uniform weights and row-by-row alignment of x, logL, blob and log-weight with the stored particles.",
             "Trusted: float reference MIS model, pure fixtures. The per-configuration run cap is reported in evidence when hit.", "DESIGN.md §4 C12"),
+    "C13": ("model_checking",
+            "schedule enumeration: every permutation of the evaluation/completion order of a likelihood batch at every pool.map call of a run (bounded number of deviating calls), differential comparison of step-boundary state digests across evaluation modes under one tape",
+            "For one owned random tape the real sampler is run scalar, vectorised, through ordered / lazy / out-of-order pool objects (all 3! / 4! batch permutations at each map call, <=1 deviating call quick, <=2 thorough) "
+            "and through real worker pools of size 1-3; after every pipeline step the complete state digest must equal the serial run's, the final evidence must be bit-identical and `calls` must equal the instrumented evaluation counter.",
+            "Trusted: purity of the fixture likelihood. Real pool internals are observed, not scheduled.", "DESIGN.md §4 C13"),
     "C18": ("model_checking",
             "exhaustive one-factor-at-a-time enumeration of invalid values over 4 base configurations; covering-array exploration (pairwise / 3-wise) of the constructor option product with complete real runs and delta-minimisation of failures",
             "All listed constraint violations x 4 valid bases must be rejected by the constructor with zero likelihood/prior calls; every row of a strength-2 (quick) / strength-3 (thorough) covering array over 14 constructor options "
